@@ -4,7 +4,7 @@ from __future__ import annotations
 import ast
 from typing import Dict, List, Optional, Set, Tuple
 
-from ..defuse import assignments, call_arg
+from ..defuse import assignments, bindings, call_arg
 from ..model import AnalysisError, Func, Program, norm, parent, short, walk_own, walk_body, pipeline_calls
 from ..pathcond import PathAnalysis
 from ..report import Result
@@ -37,7 +37,8 @@ def check(prog: Program, tier: str) -> Result:
     _r6_1(prog, res)
     _r6_2(prog, res)
     _r6_3(prog, res)
-    res.floors.update({"R6.1": 5, "R6.2": 3, "R6.3": 3})
+    _r6_4(prog, res)
+    res.floors.update({"R6.1": 5, "R6.2": 3, "R6.3": 3, "R6.4": 2})
     return res
 
 
@@ -201,6 +202,156 @@ def _r6_3(prog: Program, res: Result) -> None:
     # schedule ties: rules may not number transactions by iterating a str set (covered by the transaction-numbering sink)
 
 
+# ------------------------------------------------------------------------------------------------ R6.4
+def _unordered(e: ast.AST, fn: Func, depth: int = 0) -> Optional[ast.AST]:
+    """The set-typed expression e derives from (a witness node), or None: displays, comprehensions, set()/frozenset(),
+    set algebra, names bound to those, subscripts of dicts whose values are sets."""
+    if depth > 4:
+        return None
+    if isinstance(e, (ast.Set, ast.SetComp)):
+        return e
+    if isinstance(e, ast.Call) and isinstance(e.func, ast.Name) and e.func.id in ("set", "frozenset"):
+        return e
+    if isinstance(e, ast.BinOp) and isinstance(e.op, (ast.BitOr, ast.BitAnd, ast.Sub, ast.BitXor)):
+        return _unordered(e.left, fn, depth + 1) or _unordered(e.right, fn, depth + 1)
+    if isinstance(e, ast.Name):
+        for _stmt, v in bindings(fn).get(e.id, []):
+            if v is not None:
+                w = _unordered(v, fn, depth + 1)
+                if w is not None:
+                    return w
+        return None
+    if isinstance(e, ast.Subscript) and isinstance(e.value, ast.Name):
+        for _stmt, v in bindings(fn).get(e.value.id, []):
+            if isinstance(v, ast.Call) and norm(v.func).endswith("defaultdict") and v.args and norm(v.args[0]) in ("set", "frozenset"):
+                return v
+            if isinstance(v, ast.DictComp) and _unordered(v.value, fn, depth + 1) is not None:
+                return v
+        return None
+    return None
+
+
+def _tuple_arity(e: ast.AST, fn: Func) -> Optional[ast.Tuple]:
+    """The tuple expression that builds the elements held by the collection e, if they are built syntactically in fn."""
+    if isinstance(e, (ast.SetComp, ast.ListComp, ast.GeneratorExp)) and isinstance(e.elt, ast.Tuple):
+        return e.elt
+    if isinstance(e, (ast.Set, ast.List)) and e.elts and all(isinstance(x, ast.Tuple) for x in e.elts):
+        return e.elts[0]
+    if isinstance(e, ast.Call) and isinstance(e.func, ast.Name) and e.func.id in ("set", "frozenset", "list", "sorted") and e.args:
+        return _tuple_arity(e.args[0], fn)
+    if isinstance(e, ast.BinOp):
+        return _tuple_arity(e.left, fn) or _tuple_arity(e.right, fn)
+    base = e.value if isinstance(e, ast.Subscript) else e
+    if isinstance(base, ast.Name):
+        for n in walk_own(fn.node):
+            if isinstance(n, ast.Call) and isinstance(n.func, ast.Attribute) and n.func.attr in ("add", "append") and n.args and isinstance(n.args[0], ast.Tuple):
+                recv = n.func.value
+                recv = recv.value if isinstance(recv, ast.Subscript) else recv
+                if isinstance(recv, ast.Name) and recv.id == base.id:
+                    return n.args[0]
+            if isinstance(n, ast.Call) and isinstance(n.func, ast.Attribute) and n.func.attr in ("update", "extend") and n.args \
+                    and isinstance(n.args[0], (ast.GeneratorExp, ast.ListComp, ast.SetComp)) and isinstance(n.args[0].elt, ast.Tuple):
+                recv = n.func.value
+                recv = recv.value if isinstance(recv, ast.Subscript) else recv
+                if isinstance(recv, ast.Name) and recv.id == base.id:
+                    return n.args[0].elt
+        for _stmt, v in bindings(fn).get(base.id, []):
+            if v is not None and not isinstance(v, ast.Name):
+                a = _tuple_arity(v, fn)
+                if a:
+                    return a
+    return None
+
+
+def _strish(x: ast.AST) -> bool:
+    from ..taint import STR_ATTRS
+    if isinstance(x, ast.Constant):
+        return isinstance(x.value, str) or x.value is None
+    if isinstance(x, ast.Attribute):
+        return x.attr in STR_ATTRS
+    if isinstance(x, ast.IfExp):
+        return _strish(x.body) and _strish(x.orelse)
+    return isinstance(x, ast.Name)     # loop variables over names (module, name, asname ...)
+
+
+def _key_components(prog: Program, fn: Func, key: ast.AST) -> Optional[Set[object]]:
+    """Which components of the element the sort key uses *as they are* (so that two different elements get different
+    keys): a set of indices, or {'*'} when the whole element is part of the key.  None: not analysable."""
+    if isinstance(key, ast.Lambda) and len(key.args.args) == 1:
+        p = key.args.args[0].arg
+        body = key.body
+        env = {}
+    else:
+        r = prog.resolve_call(key, fn.mod, fn) if isinstance(key, (ast.Name, ast.Attribute)) else None
+        if not r or r[0] != "fn" or len(r[1].posparams) != 1:
+            return None
+        kf = r[1]
+        p = kf.posparams[0]
+        rets = [x for x in walk_own(kf.node) if isinstance(x, ast.Return) and x.value is not None]
+        if len(rets) != 1:
+            return None
+        body = rets[0].value
+        env = {}
+        for n in walk_own(kf.node):
+            if isinstance(n, ast.Assign) and len(n.targets) == 1 and isinstance(n.targets[0], ast.Tuple) and isinstance(n.value, ast.Name) and n.value.id == p:
+                for i, t in enumerate(n.targets[0].elts):
+                    if isinstance(t, ast.Name):
+                        env[t.id] = i
+    parts = body.elts if isinstance(body, ast.Tuple) else [body]
+    out: Set[object] = set()
+    for x in parts:
+        if isinstance(x, ast.Name) and x.id == p:
+            out.add("*")
+        elif isinstance(x, ast.Name) and x.id in env:
+            out.add(env[x.id])
+        elif isinstance(x, ast.Subscript) and isinstance(x.value, ast.Name) and x.value.id == p and isinstance(x.slice, ast.Constant) and isinstance(x.slice.value, int):
+            out.add(x.slice.value)
+        elif isinstance(x, ast.BoolOp) and isinstance(x.op, ast.Or) and len(x.values) == 2 and isinstance(x.values[1], ast.Constant):
+            # `t[1] or ""`: injective on str-or-None up to the None/"" pair, which cannot both be an alias
+            y = x.values[0]
+            if isinstance(y, ast.Name) and y.id in env:
+                out.add(env[y.id])
+            elif isinstance(y, ast.Subscript) and isinstance(y.value, ast.Name) and y.value.id == p and isinstance(y.slice, ast.Constant):
+                out.add(y.slice.value)
+    return out
+
+
+def _r6_4(prog: Program, res: Result) -> None:
+    """A sort with a key only forgets the iteration order of a set if the key tells all elements apart: sorted() is
+    stable, so elements with equal keys keep the order in which the set produced them - the hash-seed order.  For every
+    sorted(S, key=K) / min / max over a set S of tuples built in the same function, K must contain every component
+    of the tuple unchanged (or the tuple itself)."""
+    n_sites = 0
+    for fn in prog.funcs.values():
+        for c in prog.calls_in(fn):
+            if not (isinstance(c.func, ast.Name) and c.func.id in ("sorted", "min", "max") and c.args):
+                continue
+            key = next((k.value for k in c.keywords if k.arg == "key"), None)
+            if key is None:
+                continue
+            src = _unordered(c.args[0], fn)
+            if src is None:
+                continue
+            built = _tuple_arity(c.args[0], fn)
+            if built is None or not built.elts:
+                continue       # sets of nodes (address order) or of plain str (R6.3) are not this rule's business
+            if not all(_strish(x) for x in built.elts):
+                continue       # tuples holding nodes / ranges hash by address or value, not by the str hash seed
+            arity = len(built.elts)
+            n_sites += 1
+            comps = _key_components(prog, fn, key)
+            text = f"{c.func.id}({short(c.args[0], 40)}, key={short(key, 50)})"
+            if comps is None:
+                res.undecided("R6.4", fn.loc(c), fn.fq, text, "sort key is not a lambda or a one-parameter repository function")
+                continue
+            ok = "*" in comps or set(range(arity)) <= comps
+            res.decide(ok, "R6.4", fn.loc(c), fn.fq, text,
+                       f"the key contains all {arity} components of the elements: ties are impossible, the set's iteration order is forgotten" if ok else
+                       f"the elements are {arity}-tuples taken from a set, the key only distinguishes components {sorted(x for x in comps if x != '*')}: elements that differ "
+                       f"elsewhere compare equal and keep the set's hash-seed dependent order")
+    res.analysed["keyed_sorts_over_sets_of_tuples"] = n_sites
+
+
 def _callers_in_pipeline(prog: Program, fn: Func, fc: Func) -> List[Tuple[str, str]]:
     """Functions called directly by format_code from which fn is reachable."""
     from ..callgraph import CallGraph
@@ -216,6 +367,12 @@ def _callers_in_pipeline(prog: Program, fn: Func, fc: Func) -> List[Tuple[str, s
 from ..selftest import Variant  # noqa: E402
 
 VARIANTS = [
+    Variant("alias-sort-key-without-tie-breaker", "FIRE", "fixes",
+            "        names = sorted(\n            {(alias.name, alias.asname) for alias in node.names},\n            key=lambda t: (t[0], t[1] is not None, t[1]),\n        )",
+            "        names = sorted(\n            {(alias.name, alias.asname) for alias in node.names},\n            key=lambda t: (t[0], t[1] is not None),\n        )", "R6.4"),
+    Variant("alias-sort-key-whole-tuple-with-none-last", "SILENT", "fixes",
+            "        names = sorted(\n            {(alias.name, alias.asname) for alias in node.names},\n            key=lambda t: (t[0], t[1] is not None, t[1]),\n        )",
+            "        names = sorted(\n            {(alias.name, alias.asname) for alias in node.names},\n            key=lambda t: (t[0], t[1] or \"\"),\n        )"),
     Variant("imap-unordered", "FIRE", "main", "            results = pool.starmap(\n                format_file,", "            results = pool.imap_unordered(\n                format_file,", "R6.1"),
     Variant("zip-against-recomputed-list", "FIRE", "main", "            filename_changes = dict(zip(files_to_format, results))", "            filename_changes = dict(zip(sorted(set(files_to_format)), results))", "R6.1"),
     Variant("dispatch-unsorted-set", "FIRE", "main", "            files_to_format = sorted(files_to_format)\n", "            files_to_format = list(files_to_format)\n", "R6.1"),
